@@ -265,14 +265,20 @@ Qed.
 Lemma top_clock : crc_shift 1 = clock 32 TOP.
 Proof. vm_compute. reflexivity. Qed.
 
-Lemma lfsr_nlfsr bits : forall n,
-  lfsr (clock 32 n) bits = clock 32 (nlfsr n bits).
+Lemma lfsr_nlfsr_step n b : lfsr_step (clock 32 n) b = clock 32 (nlfsr_step n b).
+Proof.
+  unfold lfsr_step, nlfsr_step. rewrite crc_shift_lxor, iter_shift_lxor, iter_shift_comm.
+  destruct b; cbn [Z.b2z].
+  - rewrite top_clock. reflexivity.
+  - rewrite iter_shift_0. reflexivity.
+Qed.
+
+Lemma lfsr_nlfsr bits : forall n, lfsr (clock 32 n) bits = clock 32 (nlfsr n bits).
 Proof.
   induction bits as [|b t IH]; intros n; [reflexivity|].
-  unfold lfsr, nlfsr in *. cbn [fold_left]. rewrite <- IH. f_equal.
-  unfold lfsr_step, nlfsr_step. rewrite crc_shift_lxor, iter_shift_lxor, iter_shift_comm.
-  f_equal. destruct b; cbn [Z.b2z]; [apply top_clock|].
-  rewrite iter_shift_0. reflexivity.
+  change (lfsr (clock 32 n) (b :: t)) with (lfsr (lfsr_step (clock 32 n) b) t).
+  change (nlfsr n (b :: t)) with (nlfsr (nlfsr_step n b) t).
+  rewrite lfsr_nlfsr_step. apply IH.
 Qed.
 
 Lemma lfsr0_nlfsr bits : lfsr 0 bits = clock 32 (nlfsr 0 bits).
@@ -378,16 +384,19 @@ Lemma byte_bits_length b : length (byte_bits b) = 8%nat. Proof. reflexivity. Qed
 Lemma nth_bits_of e : forall p, nth p (bits_of e) false = bit_at e p.
 Proof.
   induction e as [|x e IH]; intros p.
-  - unfold bit_at. cbn. destruct (p / 8)%nat, p; cbn; try rewrite Z.bits_0; reflexivity.
+  - unfold bit_at. replace (nth (p / 8) [] 0) with 0 by (destruct (p / 8)%nat; reflexivity).
+    rewrite Z.bits_0. destruct p; reflexivity.
   - cbn [bits_of flat_map]. destruct (Nat.lt_ge_cases p 8) as [Hlt|Hge].
     + rewrite app_nth1 by (rewrite byte_bits_length; assumption).
       rewrite nth_byte_bits by assumption. unfold bit_at.
       rewrite Nat.div_small, Nat.mod_small by assumption. reflexivity.
     + rewrite app_nth2 by (rewrite byte_bits_length; assumption).
       rewrite byte_bits_length. fold (bits_of e). rewrite IH. unfold bit_at.
-      replace p with ((p - 8) + 1 * 8)%nat at 2 3 by lia.
-      rewrite Nat.div_add, Nat.mod_add by lia.
-      replace ((p - 8) / 8 + 1)%nat with (S ((p - 8) / 8)) by lia. reflexivity.
+      pose proof (Nat.div_mod p 8 ltac:(lia)). pose proof (Nat.div_mod (p - 8) 8 ltac:(lia)).
+      pose proof (Nat.mod_upper_bound p 8 ltac:(lia)).
+      pose proof (Nat.mod_upper_bound (p - 8) 8 ltac:(lia)).
+      replace (p / 8)%nat with (S ((p - 8) / 8)) by lia.
+      replace (p mod 8)%nat with ((p - 8) mod 8)%nat by lia. reflexivity.
 Qed.
 
 (* The burst theorem: two equally long messages whose difference is non-zero and confined to
@@ -418,6 +427,22 @@ Proof.
   - intros p Hp. rewrite (Hu p Hp). lia.
 Qed.
 
+Lemma byte_nonzero_bit_all :
+  forallb (fun x => (x =? 0) || existsb (fun j => Z.testbit x (Z.of_nat j)) (seq 0 8))
+          (map Z.of_nat (seq 0 256)) = true.
+Proof. vm_compute. reflexivity. Qed.
+
+Lemma byte_nonzero_bit x :
+  0 <= x < 256 -> x <> 0 -> exists j, (j < 8)%nat /\ Z.testbit x (Z.of_nat j) = true.
+Proof.
+  intros Hx Hnz. pose proof byte_nonzero_bit_all as H. rewrite forallb_forall in H.
+  specialize (H x). rewrite orb_true_iff, Z.eqb_eq, existsb_exists in H.
+  destruct H as [H|[j [Hin Hj]]].
+  - replace x with (Z.of_nat (Z.to_nat x)) by lia. apply in_map, in_seq. lia.
+  - contradiction.
+  - exists j. apply in_seq in Hin. split; [lia|assumption].
+Qed.
+
 Corollary crc_four_bytes m e (i : nat) :
   bytes_ok e -> length e = length m ->
   (exists k, nth k e 0 <> 0) ->
@@ -429,25 +454,9 @@ Proof.
     { destruct (Nat.lt_ge_cases k (length e)) as [Hlt|Hge].
       - unfold bytes_ok in He. rewrite Forall_forall in He. apply He, nth_In, Hlt.
       - rewrite nth_overflow in Hk by assumption. congruence. }
-    (* a non-zero byte has a set bit among its 8 low bits *)
-    destruct (forallb (fun j => negb (Z.testbit (nth k e 0) (Z.of_nat j))) (seq 0 8)) eqn:Hall.
-    + exfalso. apply Hk. apply Z.bits_inj'. intros n Hn. rewrite Z.bits_0.
-      destruct (Z.lt_ge_cases n 8).
-      * rewrite forallb_forall in Hall. specialize (Hall (Z.to_nat n)).
-        rewrite Z2Nat.id in Hall by lia. apply negb_true_iff, Hall, in_seq. lia.
-      * apply (high_bits_clear_of_small _ 8); [change (2 ^ 8) with 256|]; lia.
-    + apply Bool.not_true_iff_false in Hall. rewrite forallb_forall in Hall.
-      apply Decidable.not_all_ex_not in Hall.
-      2:{ intros j. destruct (in_dec Nat.eq_dec j (seq 0 8)); [|left; tauto].
-          destruct (Z.testbit (nth k e 0) (Z.of_nat j)); [right|left]; cbn; auto.
-          intros H. specialize (H i0). discriminate. }
-      destruct Hall as [j Hj].
-      assert (Hin : In j (seq 0 8) /\ Z.testbit (nth k e 0) (Z.of_nat j) = true).
-      { destruct (in_dec Nat.eq_dec j (seq 0 8)) as [Hi|Hn]; [|exfalso; apply Hj; tauto].
-        split; [assumption|]. destruct (Z.testbit _ _); [reflexivity|exfalso; apply Hj; auto]. }
-      destruct Hin as [Hin Ht]. apply in_seq in Hin.
-      exists (j + k * 8)%nat. unfold bit_at.
-      rewrite Nat.div_add, Nat.mod_add, Nat.div_small, Nat.mod_small by lia. exact Ht.
+    destruct (byte_nonzero_bit _ Hb Hk) as [j [Hj Ht]].
+    exists (j + k * 8)%nat. unfold bit_at.
+    rewrite Nat.div_add, Nat.mod_add, Nat.div_small, Nat.mod_small by lia. exact Ht.
   - intros p Hp. unfold bit_at in Hp.
     assert (nth (p / 8) e 0 <> 0) as Hnz by (intros H0; rewrite H0, Z.bits_0 in Hp; discriminate).
     specialize (Hwin _ Hnz).
@@ -458,3 +467,21 @@ Qed.
 Lemma crc32_check_value : crc32 [49; 50; 51; 52; 53; 54; 55; 56; 57] = 3421780262.
 Proof. vm_compute. reflexivity. Qed.
 Lemma crc32_empty : crc32 [] = 0. Proof. vm_compute. reflexivity. Qed.
+
+(* compositions stated in C06.v *)
+
+Lemma clock_bijection :
+  forall r, is_reg r ->
+    is_reg (crc_shift r) /\ is_reg (crc_unshift r) /\
+    crc_unshift (crc_shift r) = r /\ crc_shift (crc_unshift r) = r /\ crc_shift 0 = 0.
+Proof.
+  intros r Hr. repeat split; try (apply crc_shift_reg, Hr); try (apply crc_unshift_reg, Hr).
+  - apply crc_unshift_shift, Hr.
+  - apply crc_shift_unshift.
+Qed.
+
+Lemma crc_bit_level :
+  forall m r, bytes_ok m ->
+    crc_update r m = lfsr r (bits_of m) /\
+    lfsr 0 (bits_of m) = clock 32 (nlfsr 0 (bits_of m)).
+Proof. intros. split; [apply crc_update_bits; assumption|apply lfsr0_nlfsr]. Qed.
